@@ -430,7 +430,7 @@ def run(ctx):
             ctx.sample({"part": 2, "set": list(S), "cdef_a": texts_for(S)[0]})
     small = [S for S in sets if len(S) <= 3]
     big = [S for S in sets if len(S) > 3]
-    items = [[("abi", "abc", blk)] for blk in pool.chunks(small, 60)] + [[("abi", "abc", [S])] for S in big]
+    items = [[("abi", "abc", [S])] for S in big] + [[("abi", "abc", blk)] for blk in pool.chunks(small, 60)]
     ev_abi = [0, 0, 0]
     for item, r in pool.pmap(work_block, items):
         if isinstance(r, pool.WorkerError):
@@ -452,7 +452,7 @@ def run(ctx):
         api_sets = list(enumerate_sets(CORE6, 2))
     else:
         api_sets = list(enumerate_sets(CORE12, 2)) + list(itertools.combinations(CORE8, 3))
-    api_sets = [S for S in api_sets if S] + [tuple(IDS)]
+    api_sets = [tuple(IDS)] + [S for S in api_sets if S]       # the big modules first (longest compilations)
     items = []
     for S in api_sets:
         # two modules reach all four tables: a = constants + struct tags, d = typedefs ('$' structs) + enum tags
